@@ -156,3 +156,75 @@ def short_ops(ops, limit=40):
                 d[k] = v[:28] + '...(%d)' % len(v)
         out.append(d)
     return out
+
+
+# ---- independent decoding helpers -------------------------------------------
+def decode_all(img):
+    """Run every independent decoder that exists; returns dict."""
+    from harness.indep import ecma119, udf, eltorito, hybrid
+    out = {'ecma': ecma119.decode(img)}
+    try:
+        from harness.indep import susp
+        out['susp'] = susp.decode(img, out['ecma']) if out['ecma'].pvd is not None else None
+    except ImportError:
+        out['susp'] = None
+    out['udf'] = udf.decode(img)
+    out['eltorito'] = eltorito.decode(img, catalog_len=2048)
+    out['hybrid'] = hybrid.decode(img)
+    return out
+
+
+def full_extent_map(dec):
+    ext = list(dec['ecma'].extent_map)
+    if dec.get('susp') is not None and getattr(dec['susp'], 'present', False):
+        ext += [e for e in dec['susp'].extent_map if e[0] == 'rr-ce-sector']
+    if dec['udf'].present:
+        ext += list(dec['udf'].extent_map)
+    if dec['eltorito'].present:
+        ext += [e for e in dec['eltorito'].extent_map if e[0] != 'boot-record']
+    if dec['hybrid'].present:
+        ext += list(dec['hybrid'].extent_map)
+    return ext
+
+
+class ExtentIndex:
+    def __init__(self, extents):
+        self.ext = sorted(extents, key=lambda e: (e[2], e[3]))
+        self.starts = [e[2] for e in self.ext]
+
+    def locate(self, offset):
+        import bisect
+        i = bisect.bisect_right(self.starts, offset) - 1
+        best = None
+        while i >= 0 and i > bisect.bisect_right(self.starts, offset) - 40:
+            e = self.ext[i]
+            if e[2] <= offset < e[3]:
+                if best is None or (e[3] - e[2]) < (best[3] - best[2]):
+                    best = e
+            i -= 1
+        return best
+
+
+def diff_ranges(a, b, limit=64):
+    """Byte ranges where two equal-length bytes objects differ (coalesced)."""
+    out = []
+    n = min(len(a), len(b))
+    i = 0
+    step = 1 << 16
+    while i < n and len(out) < limit:
+        j = min(n, i + step)
+        if a[i:j] != b[i:j]:
+            k = i
+            while k < j and len(out) < limit:
+                if a[k] != b[k]:
+                    s = k
+                    while k < j and a[k] != b[k]:
+                        k += 1
+                    if out and out[-1][1] >= s - 8:
+                        out[-1] = (out[-1][0], k)
+                    else:
+                        out.append((s, k))
+                else:
+                    k += 1
+        i = j
+    return out
